@@ -310,16 +310,10 @@ func c10Smtp(out *vh.Out, ep *c10Endpoint, op string) {
 		out.Note("unparsable smtp op")
 		return
 	}
-	var steps []c10Step
-	for si, s := range strings.Split(t[2], ".") {
-		switch {
-		case s == "r":
-			steps = append(steps, c10Step{restart: true})
-		case s == "R" && si == 0:
-			steps = append(steps, c10Step{restart: true, commit: true})
-		case len(s) >= 2 && s[0] == 'a' && (s[1] == 'P' || s[1] == 'A'):
-			steps = append(steps, c10Step{partial: s[1] == 'P', letters: s[2:]})
-		}
+	steps, herr := c10ParseHist(t[2])
+	if herr != nil {
+		out.Note("unparsable smtp op: " + herr.Error())
+		return
 	}
 	optUTF8, optRTLS, opt8 := strings.Contains(t[3], "u"), strings.Contains(t[3], "t"), strings.Contains(t[3], "8")
 	useAuth := t[4] == "A=1"
@@ -526,22 +520,14 @@ func c10Smtp(out *vh.Out, ep *c10Endpoint, op string) {
 	var hist []string
 	for _, st := range steps {
 		if st.restart {
-			if st.commit {
-				hist = append(hist, "R")
-			} else {
-				hist = append(hist, "r")
-			}
+			hist = append(hist, st.token(""))
 			continue
 		}
 		l := st.letters
 		for len(l) < len(acc.to) {
 			l += "o"
 		}
-		k := "A"
-		if st.partial {
-			k = "P"
-		}
-		hist = append(hist, "a"+k+l[:len(acc.to)])
+		hist = append(hist, st.token(l[:len(acc.to)]))
 	}
 	authN := 1
 	if useAuth {
@@ -700,6 +686,8 @@ func c10GenSmtp(r *vh.Rng, big bool, edge int) string {
 func TestVerifC10Smtp(t *testing.T) {
 	out := vh.Open("c10_smtp")
 	defer out.Close()
+	dontRecover = false // production setting: a panic below Queue.dispatch is recovered, the entry marked as broken
+	c10QuietPanics()
 	replay := vh.Replay()
 	if replay != nil {
 		// nothing to replay here: do not start (and at once close) an endpoint - go-smtp's Close waits
@@ -740,8 +728,13 @@ func TestVerifC10Smtp(t *testing.T) {
 	if vh.Thorough() {
 		nbig = 10
 	}
+	rd := vh.NewRng(vh.Seed() + 3014)
 	for i := 0; i < n; i++ {
-		c10Smtp(out, ep, c10GenSmtp(r, i < nbig, -1))
+		op := c10GenSmtp(r, i < nbig, -1)
+		if i >= nbig {
+			op = c10DecorateOp(rd, op, 10, 25)
+		}
+		c10Smtp(out, ep, op)
 	}
 	nedge := len(c10EdgeSizesSmtp) * c10EdgeShapes
 	if vh.Thorough() {
@@ -766,5 +759,14 @@ func TestVerifC10Smtp(t *testing.T) {
 			" H=" + vh.HexBytes([]byte("Bcc: hidden@example.org\r\nSubject: x\r\n\r\n")) + " B=0:100:4 D=2",
 	} {
 		c10Smtp(out, ep, op)
+	}
+	// the downstream target panics in an attempt of a message submitted over an AUTHENTICATED session
+	// (every stage of the first attempt, which is served from the metadata object of the session; a retry;
+	// after a restart); restarts that find a leftover ID.meta.new beside the intact ID.meta
+	two := " F=" + vh.HexBytes([]byte("a@example.org")) + " R=" + vh.HexBytes([]byte("b@example.org")) + "," + vh.HexBytes([]byte("c@example.org")) +
+		" H=" + vh.HexBytes([]byte("From: a@example.org\r\nSubject: x\r\n\r\n")) + " B=0:100:5 D=1"
+	for _, h := range []string{"aPtt!s.r.aPoo", "aPtt!r.aPoo", "aAto!b.r.aPoo", "aPto!c.r.aPoo", "aPtt.aPto!b.aPoo", "aAtt.r.aPto!c.r.aPoo", "R.aPtt!b.r.aPoo",
+		"aPto.rn0.aPoo", "aPto.rn1.aPoo", "aPtt.aPto.rn3.r.aPoo", "aPto.rn4.aPoo", "aPto.rn5.aPoo", "aAtt.rn6.aPto.rn7.aPoo", "Rn2.aPto.rn8.aPoo", "aPto.rn9.aPoo.r"} {
+		c10Smtp(out, ep, "C10 smtp "+h+" u8 A=1"+two)
 	}
 }
